@@ -435,6 +435,9 @@ def solve(pred: IR, var: str, env: Env, *, unsigned: bool = False) -> Optional[I
         for x in pred[2]:
             res = _intersect(res, solve(x, var, env, unsigned=unsigned))
         return res
+    if t == 'bool' and pred[1] == 'or':
+        # A or B  ==  not (not A and not B): a union of two one-sided ranges becomes a complemented interval
+        return solve(('un', '!', ('bool', 'and', [('un', '!', x) for x in pred[2]])), var, env, unsigned=unsigned)
     if t == 'un' and pred[1] == '!':
         iv = solve(pred[2], var, env, unsigned=unsigned)
         if iv is None:
